@@ -186,7 +186,7 @@ func genC20(t *rapid.T, tier string) (*World, any) {
 			return &r.Assets[len(r.Assets)-1]
 		}
 		// assets for other platforms are always there
-		for _, other := range []string{"darwin_arm64", "windows_amd64", "linux_arm64"} {
+		for _, other := range []string{"darwin_arm64", "windows_amd64", "linux_arm64", platSuffix + "p32"} {
 			if chance(t, 60, "other") {
 				a := mk("crs-toolchain_"+ver+"_"+other+".tar.gz", "tar.gz")
 				sums = append(sums, sha256hex(buildArchive(a, "crs-toolchain"))+"  "+a.Name)
@@ -203,10 +203,18 @@ func genC20(t *rapid.T, tier string) (*World, any) {
 			if kind != "raw" && chance(t, 8, "corrupt") {
 				mine.Corrupt = true // for a raw binary every byte string is "the binary"; only archives can be corrupt
 			}
-			// near-miss names that must not be taken for this platform's asset
-			if chance(t, 20, "nearmiss") {
-				mk("crs-toolchain_"+ver+"_"+platSuffix+".sbom.json", "other")
-				mk(platSuffix+"_crs-toolchain_"+ver+".txt", "other")
+			// near-miss names that must not be taken for this platform's asset (release tools list them in the checksum file too)
+			if chance(t, 25, "nearmiss") {
+				n1 := mk("crs-toolchain_"+ver+"_"+platSuffix+".tar.gz.sbom.json", "other")
+				sums = append(sums, sha256hex(buildArchive(n1, "crs-toolchain"))+"  "+n1.Name)
+				n2 := mk(platSuffix+"_crs-toolchain_"+ver+".txt", "other")
+				sums = append(sums, sha256hex(buildArchive(n2, "crs-toolchain"))+"  "+n2.Name)
+				if drawBool(t, "nearmiss-first") {
+					// the near misses come first in the asset list
+					k := len(r.Assets)
+					r.Assets[k-3], r.Assets[k-2], r.Assets[k-1] = r.Assets[k-2], r.Assets[k-1], r.Assets[k-3]
+					mine = &r.Assets[k-1]
+				}
 			}
 		}
 		// the checksum file
